@@ -759,3 +759,12 @@ func ownerRefs(m map[string]any) []metav1.OwnerReference {
 	u := unstructured.Unstructured{Object: m}
 	return u.GetOwnerReferences()
 }
+
+// NewStoreLike returns an empty store with the same registered kinds.
+func NewStoreLike(o *Store) *Store {
+	s := NewStore()
+	for _, ki := range o.kinds {
+		s.Register(ki.GVK, ki.Namespaced, ki.StatusSub)
+	}
+	return s
+}
